@@ -447,16 +447,16 @@ func c18Property(rt *rapid.T) {
 	if rapid.Bool().Draw(rt, "group") {
 		gv := gen.Version(rt)
 		dt := gen.ValueType(rt, gv, 0, "group/type")
-		if rapid.Bool().Draw(rt, "group/textual") {
+		if rapid.IntRange(0, 3).Draw(rt, "group/textual") != 0 {
 			// the types whose codecs convert to and from text (the conversions with the most machinery behind them)
-			dt = rapid.SampledFrom([]datatype.DataType{datatype.Timestamp, datatype.Timestamp, datatype.Date, datatype.Time, datatype.Uuid, datatype.Inet, datatype.Varint, datatype.Decimal, datatype.Bigint}).Draw(rt, "group/textualType")
+			dt = rapid.SampledFrom([]datatype.DataType{datatype.Timestamp, datatype.Date, datatype.Time, datatype.Time, datatype.Uuid, datatype.Inet, datatype.Varint, datatype.Decimal, datatype.Bigint}).Draw(rt, "group/textualType")
 			if !gen.AtLeast(gv, 4) && (dt == datatype.Date || dt == datatype.Time) {
 				dt = datatype.Timestamp
 			}
 		}
 		rep := gen.DrawRep(rt, dt, false, "group/rep")
 		rep.Iface = false
-		if rapid.Bool().Draw(rt, "group/string") {
+		if rapid.IntRange(0, 3).Draw(rt, "group/string") != 0 {
 			// the textual representation where the type has one
 			if r2 := stringRep(dt); r2 != nil {
 				rep = r2
